@@ -778,6 +778,45 @@ Proof.
   injection Ex as <-. exists vals', j, v. auto.
 Qed.
 
+(* why zip_a2v_typed was added: the first-round statement C06_meta_sem_full (const_typed, meta_typed,
+   vals_typed only) is FALSE of the model.  A Zip node may carry a type that its values inhabit but
+   that is not the builder's (VArr [1] inhabits both U8 and U16): the CreateTuple created for
+   VectorGet (Zip [v; v]) 0 is typed from the operands, (U8, U8), the VectorGet it replaces from
+   the Zip node, (U16, U8), and sim demands equal types.  (Not a finding about /repo: the graph
+   builder cannot produce such a Zip node.) *)
+Definition ex_bad_zip : list node :=
+  [inp (TVector 2 t8);
+   mkNode OZip [0;0] [] [] (TVector 2 (TTuple [TScalar U16; t8]));
+   mkNode (OConstant u64 (VArr [0])) [] [] [] u64;
+   mkNode OVectorGet [1;2] [] [] (TTuple [TScalar U16; t8])].
+Definition ex_bad_tape := tape_of_list [(0, VTup [VArr [1]; VArr [2]])].
+Definition ex_bad_vals : list value :=
+  [VTup [VArr [1]; VArr [2]]; VTup [VTup [VArr [1]; VArr [1]]; VTup [VArr [2]; VArr [2]]]; VArr [0];
+   VTup [VArr [1]; VArr [1]]].
+Definition ex_bad_out : pass_out :=
+  match opt_meta ex_bad_zip (Some 3) with Ok p => p | _ => mkPassOut [] [] None end.
+Theorem C06_meta_sem_full_refuted : ~ C06_meta_sem_full.
+Proof.
+  intros Hfull.
+  assert (Ct : const_typed ex_bad_zip).
+  { intros nd t v I. repeat (destruct I as [<-|I]; [cbn; intros H; try discriminate; now injection H as <- _|]). destruct I. }
+  assert (Mt : meta_typed ex_bad_zip).
+  { intros i nd dts E D.
+    do 4 (destruct i as [|i]; [injection E as <-; cbv in D; injection D as <-; cbn;
+                               first [exact I | (do 2 eexists; reflexivity)]|]).
+    destruct i; discriminate. }
+  assert (Vt : vals_typed ex_bad_zip ex_bad_vals).
+  { intros i nd v E1 E2.
+    do 4 (destruct i as [|i]; [injection E1 as <-; injection E2 as <-; vm_compute; reflexivity|]).
+    destruct i; discriminate. }
+  assert (Ho : opt_meta ex_bad_zip (Some 3) = Ok ex_bad_out) by (vm_compute; reflexivity).
+  assert (He : eval_graph_nodes ex_bad_zip ex_bad_tape = Ok ex_bad_vals) by (vm_compute; reflexivity).
+  destruct (Hfull _ _ _ _ _ Ct Mt Vt Ho He) as (vals' & _ & S).
+  assert (Em : nth_error (po_map ex_bad_out) 3 = Some (Some 6)) by (vm_compute; reflexivity).
+  destruct (S _ _ Em) as (_ & _ & (nd & nd' & N1 & N2 & N3)).
+  vm_compute in N1, N2. injection N1 as <-. injection N2 as <-. discriminate N3.
+Qed.
+
 Print Assumptions C06_a2v_row.
 Print Assumptions C06_zip_row.
 Print Assumptions C06_meta_sem.
@@ -788,3 +827,4 @@ Print Assumptions C06_const_preserves_local.
 Print Assumptions C06_optimize_sem.
 Print Assumptions C06_optimize_sem_chain.
 Print Assumptions C06_optimize_annots.
+Print Assumptions C06_meta_sem_full_refuted.
